@@ -590,34 +590,78 @@ func Consumers(p *load.Prog, r *oblig.Report, rule string, table []Consumer) {
 			continue
 		}
 		mentioned := map[string]bool{}
-		ast.Inspect(fd.Body, func(n ast.Node) bool {
-			switch x := n.(type) {
-			case *ast.CaseClause:
-				for _, e := range x.List {
-					if tv, ok := pk.TypesInfo.Types[e]; ok && tv.IsType() {
-						t := tv.Type
-						if ptr, ok := t.(*types.Pointer); ok {
-							t = ptr.Elem()
-						}
-						if named, ok := t.(*types.Named); ok && named.Obj().Pkg() == api && strings.HasPrefix(named.Obj().Name(), c.Message+"_") {
-							mentioned[strings.TrimPrefix(named.Obj().Name(), c.Message+"_")] = true
-						}
+		// the consumer itself and the helpers of its package to which it hands the very value it received
+		bodies := []*ast.FuncDecl{fd}
+		msgParams := map[types.Object]bool{}
+		if fd.Type.Params != nil {
+			for _, f := range fd.Type.Params.List {
+				if tv, ok := pk.TypesInfo.Types[f.Type]; ok && strings.HasSuffix(tv.Type.String(), "."+c.Message) {
+					for _, n := range f.Names {
+						msgParams[pk.TypesInfo.Defs[n]] = true
 					}
 				}
-			case *ast.CallExpr:
-				if sel, ok := x.Fun.(*ast.SelectorExpr); ok {
-					if s := pk.TypesInfo.Selections[sel]; s != nil {
-						if fn, ok := s.Obj().(*types.Func); ok && fn.Pkg() == api && strings.HasPrefix(fn.Name(), "Get") {
-							recv := fn.Type().(*types.Signature).Recv().Type().String()
-							if strings.HasSuffix(recv, "."+c.Message) {
-								mentioned[strings.TrimPrefix(fn.Name(), "Get")] = true
+			}
+		}
+		if len(msgParams) > 0 {
+			for _, hd := range p.WithHelpers(pk, fd, 1)[1:] {
+				passes := false
+				ast.Inspect(fd.Body, func(n ast.Node) bool {
+					call, ok := n.(*ast.CallExpr)
+					if !ok {
+						return true
+					}
+					var id *ast.Ident
+					switch f := call.Fun.(type) {
+					case *ast.Ident:
+						id = f
+					case *ast.SelectorExpr:
+						id = f.Sel
+					}
+					if id == nil || pk.TypesInfo.Uses[id] != pk.TypesInfo.Defs[hd.Name] {
+						return true
+					}
+					for _, a := range call.Args {
+						if aid, ok := ast.Unparen(a).(*ast.Ident); ok && msgParams[pk.TypesInfo.Uses[aid]] {
+							passes = true
+						}
+					}
+					return true
+				})
+				if passes {
+					bodies = append(bodies, hd)
+				}
+			}
+		}
+		for _, body := range bodies {
+			ast.Inspect(body.Body, func(n ast.Node) bool {
+				switch x := n.(type) {
+				case *ast.CaseClause:
+					for _, e := range x.List {
+						if tv, ok := pk.TypesInfo.Types[e]; ok && tv.IsType() {
+							t := tv.Type
+							if ptr, ok := t.(*types.Pointer); ok {
+								t = ptr.Elem()
+							}
+							if named, ok := t.(*types.Named); ok && named.Obj().Pkg() == api && strings.HasPrefix(named.Obj().Name(), c.Message+"_") {
+								mentioned[strings.TrimPrefix(named.Obj().Name(), c.Message+"_")] = true
+							}
+						}
+					}
+				case *ast.CallExpr:
+					if sel, ok := x.Fun.(*ast.SelectorExpr); ok {
+						if s := pk.TypesInfo.Selections[sel]; s != nil {
+							if fn, ok := s.Obj().(*types.Func); ok && fn.Pkg() == api && strings.HasPrefix(fn.Name(), "Get") {
+								recv := fn.Type().(*types.Signature).Recv().Type().String()
+								if strings.HasSuffix(recv, "."+c.Message) {
+									mentioned[strings.TrimPrefix(fn.Name(), "Get")] = true
+								}
 							}
 						}
 					}
 				}
-			}
-			return true
-		})
+				return true
+			})
+		}
 		var missing []string
 		for _, v := range c.Required {
 			if !mentioned[v] {
@@ -667,7 +711,42 @@ func setKey(in []string) string {
 
 // callArgConsts: for every call in fn to a method named one of callees, the constant set of the
 // argument whose parameter is named param.
-func callArgConsts(fn *ssa.Function, callees []string, param string) []string {
+// stepGroup: fn and the unexported helpers of its package it delegates to (transitively), not counting
+// the other translation steps (stop) nor the graph API itself (their names are in apiNames).
+var stepStop = map[*ssa.Function]bool{}
+var stepAPI = map[string]bool{}
+
+func stepGroup(fn *ssa.Function) []*ssa.Function {
+	out := []*ssa.Function{fn}
+	seen := map[*ssa.Function]bool{fn: true}
+	for i := 0; i < len(out) && i < 20; i++ {
+		for _, b := range out[i].Blocks {
+			for _, in := range b.Instrs {
+				ci, ok := in.(ssa.CallInstruction)
+				if !ok {
+					continue
+				}
+				h := ci.Common().StaticCallee()
+				if h == nil || seen[h] || h.Pkg != fn.Pkg || len(h.Blocks) == 0 || stepStop[h] || stepAPI[h.Name()] || ast.IsExported(h.Name()) {
+					continue
+				}
+				seen[h] = true
+				out = append(out, h)
+			}
+		}
+	}
+	return out
+}
+
+func callArgConsts(root *ssa.Function, callees []string, param string) []string {
+	var out []string
+	for _, fn := range stepGroup(root) {
+		out = append(out, callArgConstsIn(fn, callees, param)...)
+	}
+	return out
+}
+
+func callArgConstsIn(fn *ssa.Function, callees []string, param string) []string {
 	var out []string
 	for _, b := range fn.Blocks {
 		for _, in := range b.Instrs {
@@ -722,6 +801,17 @@ func Siblings(p *load.Prog, r *oblig.Report, rule string) {
 	want := map[string]string{"rewrite": "1", "this": "0", "computed": "1,3", "ttu": "2"}
 	edgeCallees := []string{"AddEdge", "upsertEdge", "UpsertEdge", "hasEdge", "HasEdge"}
 	nodeCallees := []string{"getOrAddNode", "GetOrAddNode", "AddNode"}
+	stepStop, stepAPI = map[*ssa.Function]bool{}, map[string]bool{}
+	for _, role := range roles {
+		for _, f := range []*ssa.Function{resolve(role.Plain), resolve(role.Weighted)} {
+			if f != nil {
+				stepStop[f] = true
+			}
+		}
+	}
+	for _, n := range append(append([]string{}, edgeCallees...), nodeCallees...) {
+		stepAPI[n] = true
+	}
 	for _, role := range roles {
 		pf, wf := resolve(role.Plain), resolve(role.Weighted)
 		if pf == nil || wf == nil {
@@ -756,35 +846,40 @@ func Siblings(p *load.Prog, r *oblig.Report, rule string) {
 		}
 		got := map[string]string{}
 		order := ""
-		ast.Inspect(fd.Body, func(n ast.Node) bool {
-			cc, ok := n.(*ast.CaseClause)
-			if !ok || len(cc.List) != 1 {
-				return true
-			}
-			tv, ok := pk.TypesInfo.Types[cc.List[0]]
-			if !ok || !tv.IsType() {
-				return true
-			}
-			t := tv.Type
-			if ptr, ok := t.(*types.Pointer); ok {
-				t = ptr.Elem()
-			}
-			named, ok := t.(*types.Named)
-			if !ok || !strings.HasPrefix(named.Obj().Name(), "Userset_") {
-				return true
-			}
-			variant := strings.TrimPrefix(named.Obj().Name(), "Userset_")
-			for _, st := range cc.Body {
-				as, ok := st.(*ast.AssignStmt)
-				if !ok || len(as.Lhs) != 1 || len(as.Rhs) != 1 {
-					continue
-				}
-				if id, ok := as.Lhs[0].(*ast.Ident); ok && id.Name == "operator" {
-					if v, ok := pk.TypesInfo.Types[as.Rhs[0]]; ok && v.Value != nil {
-						got[variant] = constant.StringVal(v.Value)
+		var bodies []*ast.FuncDecl
+		for _, hd := range p.WithHelpers(pk, fd, 2) {
+			if hd == fd || !ast.IsExported(hd.Name.Name) && !stepAPI[hd.Name.Name] {
+				isStop := false
+				for f := range stepStop {
+					if hd != fd && f.Name() == hd.Name.Name {
+						isStop = true
 					}
 				}
-				if cl, ok := as.Rhs[0].(*ast.CompositeLit); ok && variant == "Difference" {
+				if !isStop {
+					bodies = append(bodies, hd)
+				}
+			}
+		}
+		for _, hd := range bodies {
+			ast.Inspect(hd.Body, func(n ast.Node) bool {
+				cc, ok := n.(*ast.CaseClause)
+				if !ok || len(cc.List) != 1 {
+					return true
+				}
+				tv, ok := pk.TypesInfo.Types[cc.List[0]]
+				if !ok || !tv.IsType() {
+					return true
+				}
+				t := tv.Type
+				if ptr, ok := t.(*types.Pointer); ok {
+					t = ptr.Elem()
+				}
+				named, ok := t.(*types.Named)
+				if !ok || !strings.HasPrefix(named.Obj().Name(), "Userset_") {
+					return true
+				}
+				variant := strings.TrimPrefix(named.Obj().Name(), "Userset_")
+				childNames := func(cl *ast.CompositeLit) string {
 					var names []string
 					for _, el := range cl.Elts {
 						if call, ok := el.(*ast.CallExpr); ok {
@@ -793,11 +888,43 @@ func Siblings(p *load.Prog, r *oblig.Report, rule string) {
 							}
 						}
 					}
-					order = strings.Join(names, ",")
+					return strings.Join(names, ",")
 				}
-			}
-			return true
-		})
+				for _, st := range cc.Body {
+					// `return <operator constant>, <children>` in a helper that only classifies the rewrite
+					if rs, isRet := st.(*ast.ReturnStmt); isRet && len(rs.Results) == 2 {
+						if v, ok := pk.TypesInfo.Types[rs.Results[0]]; ok && v.Value != nil && v.Value.Kind() == constant.String {
+							got[variant] = constant.StringVal(v.Value)
+						}
+						if cl, ok := rs.Results[1].(*ast.CompositeLit); ok && variant == "Difference" {
+							order = childNames(cl)
+						}
+						continue
+					}
+					as, ok := st.(*ast.AssignStmt)
+					if !ok || len(as.Lhs) != 1 || len(as.Rhs) != 1 {
+						continue
+					}
+					if id, ok := as.Lhs[0].(*ast.Ident); ok && id.Name == "operator" {
+						if v, ok := pk.TypesInfo.Types[as.Rhs[0]]; ok && v.Value != nil {
+							got[variant] = constant.StringVal(v.Value)
+						}
+					}
+					if cl, ok := as.Rhs[0].(*ast.CompositeLit); ok && variant == "Difference" {
+						var names []string
+						for _, el := range cl.Elts {
+							if call, ok := el.(*ast.CallExpr); ok {
+								if sel, ok := call.Fun.(*ast.SelectorExpr); ok {
+									names = append(names, sel.Sel.Name)
+								}
+							}
+						}
+						order = strings.Join(names, ",")
+					}
+				}
+				return true
+			})
+		}
 		okMap := true
 		for v, w := range opWant {
 			if got[v] != w {
